@@ -197,6 +197,9 @@ func (s *Schema) ValidateData(data []byte) error {
 		if err != nil {
 			return fmt.Errorf("failed to JSON remarshal data for validation: %w", err)
 		}
+	} else {
+		// unmarshal JSON as well for the content validation below
+		_ = json.Unmarshal(data, &any)
 	}
 
 	if err := s.validate(schema.NewBytesLoader(data)); err != nil {
